@@ -450,46 +450,79 @@ pub fn run(ctx: &mut Ctx) -> (&'static str, String, bool) {
             }
         }
         let dir = temp_dir();
+        // every entry point that reads from disk must agree with the in-memory parser: same value, or an error -
+        // never a panic, never a value where the parser refuses
+        let mut via_disk = |fmt: Fmt, bytes: &[u8], tag: &str, what: &str, p: &mut Part| {
+            let path = dir.join(format!("t{}-{tag}.{}", std::process::id(), if fmt == Fmt::Pth { "pth" } else { "smx" }));
+            if std::fs::write(&path, bytes).is_err() {
+                p.count("temp_file_not_writable", 1);
+                return;
+            }
+            let mem: Option<Vec<u8>> = match parse(fmt, bytes, p, "disk-reference") {
+                Some(Ok(Parsed::Pth(x))) => Some(ref_pth_bytes(&x)),
+                Some(Ok(Parsed::Smx(x))) => Some(ref_smx_bytes(&x)),
+                _ => None,
+            };
+            let by_path = guarded(|| match fmt {
+                Fmt::Pth => Pth::from_pathbuf(&path).map(|x| ref_pth_bytes(&x)).map_err(|e| e.to_string()),
+                Fmt::Smx => Smx::from_pathbuf(&path).map(|x| ref_smx_bytes(&x)).map_err(|e| e.to_string()),
+            });
+            let by_file = guarded(|| {
+                let mut fh = std::fs::File::open(&path).map_err(|e| e.to_string())?;
+                match fmt {
+                    Fmt::Pth => Pth::from_file(&mut fh).map(|x| ref_pth_bytes(&x)).map_err(|e| e.to_string()),
+                    Fmt::Smx => Smx::from_file(&mut fh).map(|x| ref_smx_bytes(&x)).map_err(|e| e.to_string()),
+                }
+            });
+            for (entry, got) in [("from_pathbuf", by_path), ("from_file", by_file)] {
+                p.evaluations += 1;
+                let replay = json!({"entry": entry, "what": what, "len": bytes.len(), "file": hex(&bytes[..bytes.len().min(256)])});
+                match (got, &mem) {
+                    (Err(pn), _) => p.violation(format!("C17/{:?}/{entry}-panic/{}", fmt, panic_site(&pn)), format!("{entry} on {what} ({} bytes) panicked: {pn}", bytes.len()), replay),
+                    (Ok(Ok(x)), Some(m)) if x == *m => {},
+                    (Ok(Ok(_)), Some(_)) => p.violation(format!("C17/{:?}/{entry}-differs", fmt), format!("{entry} on {what} gives a different structure than parsing the same bytes in memory"), replay),
+                    (Ok(Ok(_)), None) => p.violation(format!("C17/{:?}/truncated-file-accepted", fmt), format!("{entry} accepts {what} ({} bytes) which the parser refuses", bytes.len()), replay),
+                    (Ok(Err(e)), Some(_)) => p.violation(format!("C17/{:?}/{entry}-rejects-valid-file", fmt), format!("{entry} on {what}: {e}"), replay),
+                    (Ok(Err(_)), None) => {},
+                }
+            }
+            let _ = std::fs::remove_file(&path);
+        };
         for i in 0..ctx.tier.pick(20u64, 200u64) {
             let pth = gen_pth(&mut r, 20);
             let b = ref_pth_bytes(&pth);
-            let path = dir.join(format!("t{}-{i}.pth", std::process::id()));
-            if std::fs::write(&path, &b).is_ok() {
-                p.evaluations += 2;
-                let a = guarded(|| Pth::from_pathbuf(&path).map(|x| ref_pth_bytes(&x)).map_err(|e| e.to_string()));
-                let f = guarded(|| {
-                    let mut fh = std::fs::File::open(&path).map_err(|e| e.to_string())?;
-                    Pth::from_file(&mut fh).map(|x| ref_pth_bytes(&x)).map_err(|e| e.to_string())
-                });
-                if !matches!(&a, Ok(Ok(x)) if *x == b) || !matches!(&f, Ok(Ok(x)) if *x == b) {
-                    p.violation("C17/Pth/from-file", format!("from_pathbuf/from_file on a valid temporary file: {:?} / {:?}", a.map(|x| x.map(|_| ())), f.map(|x| x.map(|_| ()))), json!({"file": hex(&b[..b.len().min(256)])}));
-                }
-                // a truncated file on disk
-                let cut = r.usize_below(b.len());
-                let _ = std::fs::write(&path, &b[..cut]);
-                if let Ok(Ok(_)) = guarded(|| Pth::from_pathbuf(&path)) {
-                    p.violation("C17/Pth/truncated-file-accepted", format!("from_pathbuf accepts a PTH cut to {cut} of {} bytes", b.len()), json!({"cut": cut}));
-                }
-                let _ = std::fs::remove_file(&path);
-            }
+            via_disk(Fmt::Pth, &b, &format!("v{i}"), "a valid temporary file", &mut p);
+            let cut = r.usize_below(b.len());
+            via_disk(Fmt::Pth, &b[..cut], &format!("c{i}"), "a truncated temporary file", &mut p);
             let smx = gen_smx(&mut r, 3, 4, 4, 3);
             let b = ref_smx_bytes(&smx);
-            let path = dir.join(format!("t{}-{i}.smx", std::process::id()));
-            if std::fs::write(&path, &b).is_ok() {
-                p.evaluations += 2;
-                let a = guarded(|| Smx::from_pathbuf(&path).map(|x| ref_smx_bytes(&x)).map_err(|e| e.to_string()));
-                let f = guarded(|| {
-                    let mut fh = std::fs::File::open(&path).map_err(|e| e.to_string())?;
-                    Smx::from_file(&mut fh).map(|x| ref_smx_bytes(&x)).map_err(|e| e.to_string())
-                });
-                if !matches!(&a, Ok(Ok(x)) if *x == b) || !matches!(&f, Ok(Ok(x)) if *x == b) {
-                    p.violation("C17/Smx/from-file", "from_pathbuf/from_file on a valid temporary file does not give back the structure".to_string(), json!({"file": hex(&b[..b.len().min(256)])}));
-                }
-                let _ = std::fs::remove_file(&path);
+            via_disk(Fmt::Smx, &b, &format!("v{i}"), "a valid temporary file", &mut p);
+            let cut = r.usize_below(b.len());
+            via_disk(Fmt::Smx, &b[..cut], &format!("c{i}"), "a truncated temporary file", &mut p);
+            let jl = r.usize_below(80);
+            let junk = r.bytes(jl);
+            via_disk(if i % 2 == 0 { Fmt::Pth } else { Fmt::Smx }, &junk, &format!("j{i}"), "random bytes", &mut p);
+        }
+        // every short length (empty file, inside the header, header only, first element) of one valid file per format
+        {
+            let b = ref_pth_bytes(&gen_pth(&mut r, 3));
+            for cut in 0..b.len().min(64) {
+                via_disk(Fmt::Pth, &b[..cut], "s", "a file cut inside its first bytes", &mut p);
             }
-            let missing = dir.join("does-not-exist.pth");
-            if let Ok(Ok(_)) = guarded(|| Pth::from_pathbuf(&missing)) {
-                p.violation("C17/Pth/missing-file-accepted", "from_pathbuf on a missing file returned a value".to_string(), json!({}));
+            let b = ref_smx_bytes(&gen_smx(&mut r, 2, 3, 2, 2));
+            for cut in 0..b.len().min(120) {
+                via_disk(Fmt::Smx, &b[..cut], "s", "a file cut inside its first bytes", &mut p);
+            }
+        }
+        for (fmt, ext) in [(Fmt::Pth, "pth"), (Fmt::Smx, "smx")] {
+            let missing = dir.join(format!("does-not-exist.{ext}"));
+            let got = guarded(|| match fmt {
+                Fmt::Pth => Pth::from_pathbuf(&missing).map(|_| ()).map_err(|e| e.to_string()),
+                Fmt::Smx => Smx::from_pathbuf(&missing).map(|_| ()).map_err(|e| e.to_string()),
+            });
+            p.evaluations += 1;
+            if !matches!(got, Ok(Err(_))) {
+                p.violation(format!("C17/{:?}/missing-file", fmt), format!("from_pathbuf on a missing file: {:?}", got), json!({}));
             }
         }
         let _ = std::fs::remove_dir(&dir);
